@@ -329,3 +329,150 @@ pub fn c15(args: &[String]) {
     trace::write_ndjson(&out, &all).unwrap();
     println!("REPORT {}", json!({"kind":kind,"rounds":results,"events":all.len()}));
 }
+
+// ---------------------------------------------------------------------------
+// C07: readers with guards against a stream of reloads of a large value
+// ---------------------------------------------------------------------------
+pub struct Big {
+    pub words: Vec<u64>,
+}
+pub struct BigLoader;
+impl assets_manager::loader::Loader<Big> for BigLoader {
+    fn load(content: std::borrow::Cow<[u8]>, _ext: &str) -> Result<Big, assets_manager::BoxedError> {
+        let n = crate::assets::parse_leaf(&content).ok_or("bad")? as u64;
+        Ok(Big { words: vec![n; 512] })
+    }
+}
+impl assets_manager::Asset for Big {
+    const EXTENSION: &'static str = "x";
+    type Loader = BigLoader;
+}
+
+/// a big value stored inline (no indirection): the swap moves 4 KiB
+pub struct Inline {
+    pub words: [u64; 512],
+}
+impl assets_manager::loader::Loader<Inline> for BigLoader {
+    fn load(content: std::borrow::Cow<[u8]>, _ext: &str) -> Result<Inline, assets_manager::BoxedError> {
+        let n = crate::assets::parse_leaf(&content).ok_or("bad")? as u64;
+        Ok(Inline { words: [n; 512] })
+    }
+}
+impl assets_manager::Asset for Inline {
+    const EXTENSION: &'static str = "x";
+    type Loader = BigLoader;
+}
+
+fn uniform(w: &[u64]) -> (u64, bool) {
+    let first = unsafe { std::ptr::read_volatile(&w[0]) };
+    let mut ok = true;
+    for x in w.iter() {
+        if unsafe { std::ptr::read_volatile(x) } != first {
+            ok = false;
+        }
+    }
+    (first, ok)
+}
+
+/// `amv c07-stress <out.ndjson> <seed> <writes> <mode: local|static>`
+pub fn c07(args: &[String]) {
+    let out = args[0].clone();
+    let seed: u64 = args[1].parse().unwrap();
+    let writes: u64 = args[2].parse().unwrap();
+    let is_static = args[3] == "static";
+    let src = MemSource::new(true);
+    src.st.lock().unwrap().trace_reads = false;
+    src.put("a", "x", b"v0");
+    trace::enable();
+    trace::take();
+    let cache: &'static AssetCache<MemSource> = Box::leak(Box::new(AssetCache::with_source(src.clone())));
+    let h = cache.load::<Inline>("a").unwrap();
+    if is_static {
+        cache.enhance_hot_reloading();
+    }
+    let stop = Arc::new(AtomicBool::new(false));
+    let mut readers = Vec::new();
+    for i in 0..4 {
+        let stop = stop.clone();
+        readers.push(std::thread::spawn(move || {
+            trace::set_thread(&format!("r{}", i + 1));
+            let mut rng = StdRng::seed_from_u64(seed + 31 * i as u64);
+            let mut n = 0u64;
+            while !stop.load(Ordering::SeqCst) {
+                n += 1;
+                let kind = rng.gen_range(0..3);
+                let g = h.read();
+                let rid = crate::front::rid_of(h.last_reload_id());
+                let (v, _) = uniform(&g.words);
+                trace::emit(json!({"ev":"GuardAcq","rid":rid,"val":v}));
+                let (v2, ok) = match kind {
+                    0 => uniform(&g.words),
+                    1 => {
+                        // a long-held guard
+                        std::thread::sleep(std::time::Duration::from_micros(rng.gen_range(100..1500)));
+                        uniform(&g.words)
+                    }
+                    _ => {
+                        // a mapped guard keeps the lock
+                        let m = assets_manager::AssetReadGuard::map(g, |b| &b.words[100..400]);
+                        std::thread::sleep(std::time::Duration::from_micros(rng.gen_range(50..600)));
+                        let r = uniform(&m);
+                        let rid2 = crate::front::rid_of(h.last_reload_id());
+                        trace::emit(json!({"ev":"GuardRel","rid":rid2,"val":r.0,"uniform":r.1}));
+                        drop(m);
+                        continue;
+                    }
+                };
+                let rid2 = crate::front::rid_of(h.last_reload_id());
+                trace::emit(json!({"ev":"GuardRel","rid":rid2,"val":v2,"uniform":ok}));
+                drop(g);
+                if n % 4 == 0 {
+                    std::thread::yield_now();
+                }
+            }
+        }));
+    }
+    let mut sent = 0usize;
+    for k in 1..=writes {
+        src.put("a", "x", format!("v{k}").as_bytes());
+        trace::emit(json!({"ev":"Notified","th":"main"}));
+        src.send(&[OwnedDirEntry::File("a".into(), "x".into())]);
+        sent += 1;
+        if is_static {
+            let t0 = std::time::Instant::now();
+            while crate::front::rid_of(h.last_reload_id()) < k && t0.elapsed() < std::time::Duration::from_secs(10) {
+                std::thread::sleep(std::time::Duration::from_micros(200));
+            }
+        } else {
+            trace::wait_until(std::time::Duration::from_secs(10), |l| l.iter().filter(|x| x["ev"] == "EventsEnd").count() >= sent);
+            trace::emit(json!({"ev":"Begin","op":"hot_reload","th":"main"}));
+            cache.hot_reload();
+            trace::emit(json!({"ev":"End","op":"hot_reload","th":"main"}));
+        }
+        std::thread::sleep(std::time::Duration::from_micros(300));
+    }
+    stop.store(true, Ordering::SeqCst);
+    for r in readers {
+        r.join().unwrap();
+    }
+    let lines = trace::take();
+    let mut proj = Vec::new();
+    let mut torn = 0;
+    for l in lines {
+        match l["ev"].as_str() {
+            Some("Notified") => proj.push(json!({"ev":"Notified"})),
+            Some("Begin") | Some("End") if l["op"] == "hot_reload" => proj.push(json!({"ev":l["ev"]})),
+            Some("Write") if l["id"] == "a" => proj.push(json!({"ev":"Write","rid":l["rid"]})),
+            Some("GuardAcq") => proj.push(json!({"ev":"GuardAcq","th":l["th"],"rid":l["rid"],"val":l["val"]})),
+            Some("GuardRel") => {
+                if l["uniform"] == false {
+                    torn += 1;
+                }
+                proj.push(json!({"ev":"GuardRel","th":l["th"],"rid":l["rid"],"val":l["val"],"uniform":l["uniform"]}))
+            }
+            _ => {}
+        }
+    }
+    trace::write_ndjson(&out, &proj).unwrap();
+    println!("REPORT {}", json!({"events":proj.len(),"torn":torn,"final_rid":crate::front::rid_of(h.last_reload_id()),"writes":writes}));
+}
